@@ -333,12 +333,9 @@ def check_frames(res, N, bl, strand, f0):
     case = dict(kind="frames", N=N, blocks=[list(b) for b in bl], strand=strand, f0=f0)
     res.state(("frames", bl, strand, f0))
     ex = F.exons_5to3(bl, strand)
-    if len(ex[0]) < f0:
-        res.note("construct_frames", "first-exon-shorter-than-offset")
-        if o[0] != "ok" and not lib.is_documented_exc(o[2]):
-            res.deviation("construct_frames_from_location", case, o[1], "frames or documented exception", sig="frames-internal-error")
-        return
-    res.note("construct_frames", "ok")
+    # (a first exon SHORTER than the start offset - 1 bp, offset 2 - leaves one base of the offset to the next exon; the
+    # generated frames must still describe the one reading frame that skips exactly f0 bases)
+    res.note("construct_frames", "first-exon-shorter-than-offset" if len(ex[0]) < f0 else "ok")
     if len(bl) > 1 or f0:
         res.nontriv(("frames", bl, strand, f0))
     if o[0] != "ok" or len(o[1]) != len(bl):
@@ -349,7 +346,8 @@ def check_frames(res, N, bl, strand, f0):
     kept = F.kept_positions(ex, fr5)
     allp = [p for e in ex for p in e]
     if fr5[0] != f0 or kept != allp[f0:]:
-        res.deviation("construct_frames_from_location", case, fr, F.consistent_frames_plus_order(bl, strand, f0), sig="frames-not-uninterrupted")
+        good = [list(F.frames_5to3(list(v), strand)) for v in itertools.product(range(3), repeat=len(bl)) if v[0] == f0 and F.kept_positions(ex, list(v)) == allp[f0:]]
+        res.deviation("construct_frames_from_location", dict(first_exon=len(ex[0]), skipped=len(allp) - len(kept), **case), fr, good[:3], sig="frames-not-uninterrupted")
         return
     # fed back into a CDS: codons == model codons of one uninterrupted frame
     genome = (GENOMES["startstop"] * 2)[:N]
@@ -558,4 +556,17 @@ def _m_negative_block(d):
     return False
 
 
-MATCHERS = {"c05_lost_first_codon": _m_lost_first_codon, "c05_negative_block": _m_negative_block}
+def _m_frames_short_first_exon(d):
+    """construct_frames_from_location, first exon (5'->3') shorter than the start offset (1 bp exon, offset 2): the
+    second exon's frame is computed as (1 - 2) mod 3 = 2 and the codon walk then skips 1 + 2 (or more) bases instead of 2
+    (pinned by the bundled test test_construct_frames_from_location[location0-CDSFrame.TWO-expected0])"""
+    c = d["case"]
+    if d["sig"] != "frames-not-uninterrupted" or c.get("kind") != "frames":
+        return False
+    if not (c.get("first_exon") == 1 and c.get("f0") == 2 and c.get("skipped", 0) > 2):
+        return False
+    # wrong-answer shape: exactly the library's formula (offset subtracted from the first length, frames by running sum)
+    return d["observed"] == F.consistent_frames_plus_order([tuple(b) for b in c["blocks"]], c["strand"], 2)
+
+
+MATCHERS = {"c05_lost_first_codon": _m_lost_first_codon, "c05_negative_block": _m_negative_block, "c05_frames_short_first_exon": _m_frames_short_first_exon}
